@@ -44,6 +44,8 @@ def classify(d):
         return 'frames-forwarded-that-the-datagram-does-not-contain'
     if code == 82:
         return 'stack-grows-with-every-datagram'
+    if code == 85:
+        return 'receive-path-blocked-in-a-system-call'
     if code == 84:
         return 'listener-terminated-instead-of-processing-the-next-datagram'
     if code == 83:
@@ -177,6 +179,23 @@ def c18(tier, seed):
         bins = dict(vlib.run_parallel(lambda n: (n, build_listener(work, n)), names, workers=6))
         for n in names:
             run_listener(obs, bins[n], n, count, seed, nproc=16 if tier == 'quick' else 32)
+        # the same scripts in a clang MemorySanitizer build: recv() marks exactly the received bytes as initialised, so anything a
+        # listener reads behind the end of the datagram (stale bytes of an earlier one, still inside its buffer) and then uses is reported
+        def msan_build(n):
+            try:
+                return n, vlib.compile_many(work, 'lst_%s_msan' % n, lst_sources(n), vlib.MSAN_FLAGS, cc='clang',
+                                            extra_inc=[os.path.join(vlib.REPO, 'examples')], link_flags=['-lm'])
+            except vlib.HarnessError:
+                return n, None
+        mbins = dict(vlib.run_parallel(msan_build, names, workers=6))
+        nt0 = dict(obs.stats)
+        for n in names:
+            if mbins[n] is None:
+                obs.notes.append('MemorySanitizer build of the %s listener monitor skipped (could not be built)' % n)
+                continue
+            run_listener(obs, mbins[n], n, 192 if tier == 'quick' else 6400, int(seed) + 11, nproc=16)
+        for k in ('lst.sequences', 'lst.templates', 'nontrivial'):
+            obs.stats[k] = nt0.get(k, 0)
         fuzz = None
         if tier == 'thorough':
             for n in names:
@@ -192,7 +211,7 @@ def c18(tier, seed):
                         '(new_packet / *_recv_pdu / the main loop, #included with recv/write renamed, fed through an AF_UNIX datagram '
                         'socket pair) runs in one forked ASan+UBSan child per sequence with a 2 s CPU budget per datagram; a report, '
                         'signal, budget overrun, >16384 frames per datagram or a mishandled sentinel is a violation.  Every sequence '
-                        'is a distinct generated script (distinct_nontrivial = sequences run).  Thorough tier adds memcheck on 40 sequences per mode and a '
+                        'is a distinct generated script (distinct_nontrivial = sequences run).  A slice of the scripts runs again in a clang MemorySanitizer build (use of bytes behind the end of the datagram).  Thorough tier adds memcheck on 40 sequences per mode and a '
                         'coverage-guided libFuzzer+ASan+UBSan stage on the same receive code (fuzz_stage in this record).' % count)
         return vlib.finish('C18', 'exploration', tier, seed, obs, cov, [
             'receive path = the handler / loop body; whether main() exits when a handler returns -1 is not judged',
@@ -238,5 +257,9 @@ def _tunnel(work):
     return vlib.compile_many(work, 'tunnel_asan', src, vlib.ASAN_FLAGS, extra_inc=[os.path.join(vlib.REPO, 'examples')])
 
 
-BUILDERS = dict([('lst_%s_asan' % n, (lambda n: (lambda work: build_listener(work, n)))(n)) for n in LISTENERS] + [('tunnel_asan', _tunnel)])
+def _msan_listener(n):
+    return lambda work: vlib.compile_many(work, 'lst_%s_msan' % n, lst_sources(n), vlib.MSAN_FLAGS, cc='clang', extra_inc=[os.path.join(vlib.REPO, 'examples')], link_flags=['-lm'])
+
+
+BUILDERS = dict([('lst_%s_asan' % n, (lambda n: (lambda work: build_listener(work, n)))(n)) for n in LISTENERS] + [('lst_%s_msan' % n, _msan_listener(n)) for n in LISTENERS] + [('tunnel_asan', _tunnel)])
 CHECKS = dict(C18=c18, C19=c19)
